@@ -510,6 +510,12 @@ class Interp(object):
                 key = self.ev_slice(t.slice, st, fctx)
                 st.effects.append(Effect('mut', target=base, op='delitem', args=(key,), node=node))
                 st.invalidate(base)
+                sl = t.slice
+                if isinstance(sl, ast.Slice) and sl.step is None and sl.upper is not None and isinstance(t.value, ast.Name) and \
+                        (sl.lower is None or (isinstance(sl.lower, ast.Constant) and sl.lower.value == 0)):
+                    # `del xs[:n]`: what the local name holds from here on is xs[n:] (bounds evaluated before the deletion)
+                    hi = self.ev(sl.upper, st, fctx)
+                    st.env.vars[t.value.id] = ('SL', base, hi, NONE)
         return [st]
 
     def x_Assign(self, node, st, fctx):
